@@ -1126,7 +1126,7 @@ pub fn gen_invocation(
         }
         _ => o,
     });
-    if let Some(output) = &output.as_ref().map(|o| normalize(o)) {
+    if let Some(output) = &output.as_ref().map(|o| normalize(o)).filter(|o| !o.is_empty()) {
         let is_existing_dir_case = output == "existing-dir" || output == "existing.dir";
         if is_existing_dir_case && backend != Backend::Memory {
             extra.push(FsEntry {
